@@ -84,8 +84,8 @@ def run(ctx):
         d = parse_pairs(o, int, vlib.hex_to_float)
         if d is not None:
             born[c] = d
-    md_items = [it for it in items if it["kind"] == "tuples" and it["repr"] == "vector"]
-    md_out = driver_query(ctx, ["modeldist | v | %s | %s | %s" % (it["nq"], it["fields"][3], it["ops"]) for it in md_items], "modeldist")
+    md_items = [it for it in items if it["kind"] == "tuples" and it["repr"] in ("vector", "stabilizer")]
+    md_out = driver_query(ctx, ["modeldist | %s | %s | %s | %s" % (it["repr"][0], it["nq"], it["fields"][3], it["ops"]) for it in md_items], "modeldist")
     for it, o in zip(md_items, md_out):
         it["modeldist"] = parse_pairs(o, str, vlib.hex_to_float)
     known = {f["id"]: f for f in vlib.load_known(ctx.pid) if f.get("status") == "open"}
